@@ -4,7 +4,7 @@
   An `SGate` is what the tracer observed of a real gate object: the local matrix
   returned by `gate.matrix(backend)` (as expressions in the symbolic parameters), its
   target qubits (in the order qibo stores them) and its `controlled_by` controls.
-  An `Ob` says "applying `lhs` in list order equals applying `rhs` in list order"
+  An `Ob` says "applying `ls` in list order equals applying `rs` in list order"
   exactly or up to a global phase, on `n` template qubits with `np` real parameters.
 -/
 import QV.Core.Sym
@@ -24,8 +24,8 @@ inductive Mode where
 structure Ob where
   np   : Nat
   n    : Nat
-  lhs  : List SGate
-  rhs  : List SGate
+  ls   : List SGate
+  rs   : List SGate
   mode : Mode := .exact
   deriving Repr, Inhabited
 
@@ -43,8 +43,8 @@ def prodOf (np n : Nat) : List SGate → SMat → Option SMat
       prodOf np n gs (SMat.mul m acc)
 
 def Ob.sides (o : Ob) : Option (SMat × SMat) := do
-  let a ← prodOf o.np o.n o.lhs (SMat.one o.np (2 ^ o.n))
-  let b ← prodOf o.np o.n o.rhs (SMat.one o.np (2 ^ o.n))
+  let a ← prodOf o.np o.n o.ls (SMat.one o.np (2 ^ o.n))
+  let b ← prodOf o.np o.n o.rs (SMat.one o.np (2 ^ o.n))
   pure (a, b)
 
 /-- the decision procedure run in the kernel for every generated obligation. -/
